@@ -293,7 +293,9 @@ psRes_t psX509ParseCertData(psPool_t *pool,
         }
         numParsed++;
         *tailp = current;
-        tailp = &(current->next);
+        /* One PEM block may have produced several certs: find the tail. */
+        for (tailp = &(current->next); *tailp; tailp = &(*tailp)->next)
+            ;
     }
     psFreeList(certDatas, pool);
     return numParsed;
